@@ -71,7 +71,15 @@ def c09_corr(ctx, case):
     ctx.nontrivial(N >= 3 and L >= 1 and (np.iscomplexobj(x) or (y is not None and np.iscomplexobj(y))
                                           or unequal or norm != "biased"))
     ctx.check(len(got) == L + 1, "CORRELATION returned %d values for maxlags=%r (N=%d)" % (len(got), ml, N))
-    scale = float(np.max(np.abs(exp))) if len(exp) else 0.0
+    # absolute tolerance relative to the largest value a lag sum of these data can take
+    # (Cauchy-Schwarz), normalised like the estimate: exact cancellation (orthogonal data)
+    # leaves rounding noise of that order, not of the order of the result
+    bound = float(np.linalg.norm(x) * np.linalg.norm(yy))
+    if norm == "biased":
+        bound /= N
+    elif norm == "coeff":
+        bound = 1.0
+    scale = max(float(np.max(np.abs(exp))) if len(exp) else 0.0, bound)
     ctx.close(got, exp if np.iscomplexobj(got) else exp.real, "CORRELATION vs lag sums (norm=%s)" % norm,
               rtol=1e-9, atol=1e-12 * scale)
     if not np.iscomplexobj(got):
@@ -118,7 +126,12 @@ def c09_xcorr(ctx, case):
     ctx.nontrivial(N >= 3 and L >= 1 and (np.iscomplexobj(x) or (y is not None and np.iscomplexobj(y)) or norm != "biased"))
     ctx.check(list(lags) == list(range(-L, L + 1)), "xcorr lags are %s, expected -%d..%d" % (list(lags)[:4], L, L))
     ctx.check(len(got) == 2 * L + 1, "xcorr returned %d values for maxlags=%r" % (len(got), ml))
-    scale = float(np.max(np.abs(exp)))
+    bound = float(np.linalg.norm(x) * np.linalg.norm(yy))
+    if norm == "biased":
+        bound /= N
+    elif norm == "coeff":
+        bound = 1.0
+    scale = max(float(np.max(np.abs(exp))), bound)
     ctx.close(np.asarray(got, dtype=complex), exp, "xcorr vs definition (norm=%s)" % norm, rtol=1e-9, atol=1e-12 * scale)
     # agreement of the two functions at non-negative lags (equal lengths)
     c = spectrum.CORRELATION(x, y, maxlags=L, norm=norm)
